@@ -5,15 +5,24 @@
 (* feasible partial plans of ONE instance.                                     *)
 (*                                                                            *)
 (* record  [id, kind, mode, now, caps, occ, tasks, conv, ans, dump]            *)
-(*   caps  : per worker a vector of capacities, one entry per resource name    *)
-(*           (0 = the worker does not have it)                                 *)
-(*   occ   : RUNNING occupants [w, dem, hold, prec]: the occupant holds dem on *)
-(*           worker w from `now` for `hold` time units and a child of it may   *)
-(*           start `prec` (+ precGap) after `now`                              *)
+(*   caps  : per worker and resource name the sequence of the quantities of    *)
+(*           the worker's INSTANCES of that name (a worker may list one name   *)
+(*           under several ids: <<1, 1>> = ids "0" and "1" with one unit each; *)
+(*           <<>> = the worker does not have it).  Position i is id i-1; an    *)
+(*           entry listed without an id sits at a position behind the ids (no  *)
+(*           demand can pin it).  The capacity of a name is the SUM over its   *)
+(*           instances (Cap).                                                  *)
+(*   occ   : RUNNING occupants [w, dem, pin, hold, prec]: the occupant holds   *)
+(*           dem (pin: as for strategies) on worker w from `now` for `hold`    *)
+(*           time units and a child of it may start `prec` (+ precGap) after   *)
+(*           `now`                                                             *)
 (*   tasks : the tasks the planner decides, parents before children,           *)
-(*           [graph, release, deadline, strats <<[dem, rt]>>, parents,         *)
+(*           [graph, release, deadline, strats <<[dem, pin, rt]>>, parents,    *)
 (*            occParents, must, sink]; must = previously SCHEDULED and not     *)
 (*           retractable (has to be placed), sink = sink of its real TaskGraph *)
+(*           dem[k] = units of resource name k the strategy asks for in total  *)
+(*           (any id + specific ids), pin[k][i] = the part of dem[k] that has  *)
+(*           to come from instance i of the worker (<<>> = nothing pinned)     *)
 (*   mode  : "tasks" (default: released tasks are offered one by one) or       *)
 (*           "graphs" (release_taskgraphs: whole task graphs are offered)      *)
 (*   conv  : the policy's conventions (DESIGN 7), named so that a mutant that  *)
@@ -28,6 +37,9 @@
 (*     precRt   "chosen" (ILP: child >= parent + runtime of the chosen         *)
 (*              strategy + precGap) / "slowest" (TetriSched-Gurobi)            *)
 (*     precGap  1 for both                                                     *)
+(*     nameCap  FALSE in the statement-level decision space (a pinned unit has  *)
+(*              to fit its instance); TRUE = the planners' models, which only  *)
+(*              have one capacity row per (worker, resource name)              *)
 (*     pairSum, unplacedTimed : FALSE in the statement-level decision space;   *)
 (*              TRUE reproduces two over-tight constraints of the pinned ILP   *)
 (*              (see PairCapOK, UnplacedTimedOK); used only to attribute a     *)
@@ -61,6 +73,8 @@ RECURSIVE SumSet(_, _)
 SumSet(f, S) == IF S = {} THEN 0 ELSE LET x == CHOOSE y \in S : TRUE IN f[x] + SumSet(f, S \ {x})
 SetMax(S) == CHOOSE m \in S : \A x \in S : x <= m
 Range(s) == {s[k] : k \in 1..Len(s)}
+SumSeq(s) == SumSet(s, 1..Len(s))
+At0(s, i) == IF i \in 1..Len(s) THEN s[i] ELSE 0
 
 -----------------------------------------------------------------------------
 (* the instance *)
@@ -69,6 +83,9 @@ TIx(r)      == 1..NT(r)
 OIx(r)      == 1..Len(r.occ)
 Workers(r)  == 1..Len(r.caps)
 NRes(r)     == Len(r.caps[1])
+\* a worker that lists one resource name under several ids owns the SUM
+Insts(r, w, k) == 1..Len(r.caps[w][k])
+Cap(r, w, k)   == SumSeq(r.caps[w][k])
 Unplaced    == [placed |-> FALSE, w |-> 0, s |-> 0, start |-> 0]
 Put(P, t, w, s, st) == [P EXCEPT ![t] = [placed |-> TRUE, w |-> w, s |-> s, start |-> st]]
 Placed(r, P) == {t \in TIx(r) : P[t].placed}
@@ -76,21 +93,29 @@ Placed(r, P) == {t \in TIx(r) : P[t].placed}
 Strat(r, P, t)  == r.tasks[t].strats[P[t].s]
 Rt(r, P, t)     == Strat(r, P, t).rt
 Dem(r, P, t)    == Strat(r, P, t).dem
+Pin(r, P, t)    == Strat(r, P, t).pin
 SlowestRt(r, t) == SetMax({r.tasks[t].strats[s].rt : s \in 1..Len(r.tasks[t].strats)})
 PrecRt(r, P, p) == IF r.conv.precRt = "slowest" THEN SlowestRt(r, p) ELSE Rt(r, P, p)
 
 \* the allowed start slots of the policy
-Slots(r) == {x \in r.conv.startLB..r.conv.horizon : (x - r.now) % r.conv.grid = 0}
+\* = {x \in startLB..horizon : (x - now) % grid = 0}, without walking over every
+\* instant (mixed time units: a slot may be 1000 microseconds wide)
+Slots(r) == {x \in {r.now + k * r.conv.grid : k \in 0..((r.conv.horizon - r.now) \div r.conv.grid)} :
+                x >= r.conv.startLB}
+
+IsSlot(r, x) == x >= r.conv.startLB /\ x >= r.now /\ x <= r.conv.horizon /\ (x - r.now) % r.conv.grid = 0
 
 -----------------------------------------------------------------------------
 (* PlanOK: capacity, release, precedence, deadline in the policy's space *)
 \* the (cleared) worker can hold the strategy at all
 CompatOK(r, P, t) ==
     /\ P[t].w \in Workers(r) /\ P[t].s \in 1..Len(r.tasks[t].strats)
-    /\ \A k \in 1..NRes(r) : Dem(r, P, t)[k] <= r.caps[P[t].w][k]
+    /\ \A k \in 1..NRes(r) : Dem(r, P, t)[k] <= Cap(r, P[t].w, k)
+    /\ r.conv.nameCap \/ \A k \in 1..NRes(r) : \A i \in 1..Len(Pin(r, P, t)[k]) :
+          Pin(r, P, t)[k][i] <= At0(r.caps[P[t].w][k], i)
 
 TimingOK(r, P, t) ==
-    /\ P[t].start \in Slots(r)
+    /\ IsSlot(r, P[t].start)
     /\ P[t].start >= r.tasks[t].release
     /\ P[t].start + Rt(r, P, t) <= r.tasks[t].deadline          \* deadlines are hard
 
@@ -110,9 +135,25 @@ Load(r, P, w, k, x) ==
 
 \* capacity per worker and resource at every occupied instant: the load only
 \* rises where something starts, so the start instants (and `now`) suffice
+\* the pinned units on instance i of resource name k
+PinLoad(r, P, w, k, i, x) ==
+    LET T == {t \in Placed(r, P) : P[t].w = w /\ Active(r, P[t].start, Rt(r, P, t), x)}
+        O == {o \in OIx(r) : r.occ[o].w = w /\ Active(r, r.now, r.occ[o].hold, x)}
+    IN  SumSet([t \in T |-> At0(Pin(r, P, t)[k], i)], T) + SumSet([o \in O |-> At0(r.occ[o].pin[k], i)], O)
+
+\* per name the load fits the SUM of the instances (units asked for with the `any`
+\* id may come from any of them, split if need be); the units pinned to an
+\* instance fit that instance
 PointCapOK(r, P) ==
     \A t \in Placed(r, P) : \A k \in 1..NRes(r) :
-        Load(r, P, P[t].w, k, P[t].start) <= r.caps[P[t].w][k]
+        /\ Load(r, P, P[t].w, k, P[t].start) <= Cap(r, P[t].w, k)
+        /\ r.conv.nameCap \/ \A i \in Insts(r, P[t].w, k) :
+              PinLoad(r, P, P[t].w, k, i, P[t].start) <= r.caps[P[t].w][k][i]
+
+NeedsSum(r, P) ==
+    \E t \in Placed(r, P) : \E k \in 1..NRes(r) :
+        /\ Insts(r, P[t].w, k) # {}
+        /\ Load(r, P, P[t].w, k, P[t].start) > SetMax(Range(r.caps[P[t].w][k]))
 
 \* --- the two over-tight constraints of the pinned ILP (attribution only) ---
 \* ilp_scheduler.py _overlaps/_add_resource_constraints: Overlap(x, y) = the two
@@ -128,9 +169,9 @@ PairLoad(r, P, w, k, st, dur, selfT, selfO) ==
 PairCapOK(r, P) ==
     /\ \A t \in Placed(r, P) : \A w \in Workers(r) : \A k \in 1..NRes(r) :
           (IF P[t].w = w THEN Dem(r, P, t)[k] ELSE 0)
-            + PairLoad(r, P, w, k, P[t].start, Rt(r, P, t), {t}, {}) <= r.caps[w][k]
+            + PairLoad(r, P, w, k, P[t].start, Rt(r, P, t), {t}, {}) <= Cap(r, w, k)
     /\ \A o \in OIx(r) : \A k \in 1..NRes(r) :
-          r.occ[o].dem[k] + PairLoad(r, P, r.occ[o].w, k, r.now, r.occ[o].hold, {}, {o}) <= r.caps[r.occ[o].w][k]
+          r.occ[o].dem[k] + PairLoad(r, P, r.occ[o].w, k, r.now, r.occ[o].hold, {}, {o}) <= Cap(r, r.occ[o].w, k)
 
 \* ilp_scheduler.py _initialize_timing_constraints: the start variable of a task
 \* that is NOT placed still has to satisfy start >= max(now+1, release), start >=
@@ -199,7 +240,14 @@ Skip ==
     /\ nxt' = NextFrom(R, nxt + 1)
     /\ UNCHANGED <<rid, plan>>
 
-PlaceNext == \E w \in Workers(R), s \in 1..Len(R.tasks[nxt].strats), st \in Slots(R) : Place(w, s, st)
+\* the slots at which the strategy can meet TimingOK at all (PlanOK decides; this only
+\* spares evaluating it at the thousands of slots a microsecond grid has in a window
+\* of milliseconds)
+Window(r, t, s) ==
+    LET lo == SetMax({r.conv.startLB, r.now, r.tasks[t].release})
+        hi == r.tasks[t].deadline - r.tasks[t].strats[s].rt
+    IN  {x \in lo..(IF hi <= r.conv.horizon THEN hi ELSE r.conv.horizon) : (x - r.now) % r.conv.grid = 0}
+PlaceNext == \E w \in Workers(R), s \in 1..Len(R.tasks[nxt].strats) : \E st \in Window(R, nxt, s) : Place(w, s, st)
 Next == (nxt <= NT(R)) /\ (PlaceNext \/ Skip)
 Spec == Init /\ [][Next]_vars
 
@@ -255,6 +303,9 @@ BatchChecked ==
     /\ (R.kind = "enum" /\ R.dump /\ Complete /\ PlanOK(R, plan)) => PrintT("@@ " \o ToString(R.id) \o " plan " \o ToString(plan))
     /\ (~C14_NoBetterPlan /\ ~Found(rid)) => Report(rid, "better", plan)
     /\ ~C14_Maximal => Report(rid, "addable", CHOOSE a \in Addable(R, plan) : TRUE)
+    \* coverage, not part of the property: the answer loads a worker beyond every single
+    \* entry of a resource name (only the SUM over the instances admits it)
+    /\ (IsInitial /\ NeedsSum(R, R.ans)) => PrintT("@@ " \o ToString(R.id) \o " needs_sum 0")
     \* not part of the property: is the answer itself inside the modelled space?
     /\ (IsInitial /\ Placed(R, R.ans) # {} /\ ~PlanOK(R, R.ans)) => PrintT("@@ " \o ToString(R.id) \o " answer_outside_space 0")
 
